@@ -78,16 +78,29 @@ impl UpdateGenerator for MarkdownUpdateGenerator {
                     language,
                     config_lines,
                     comment_lines,
-                    code_lines: _,
+                    code_lines,
                 } => {
                     let config = if config_lines.is_empty() {
                         "".into()
                     } else {
                         format!(" {{{}}}", config_lines.join_newline().trim_start())
                     };
-                    let generated = outcomes[testcase_index]
-                        .generate_testcase()
-                        .with_context(|| format!("testcase number {}", testcase_index + 1))?;
+                    // a block without shell expression is not a testcase, has
+                    // no outcome and stays as it is
+                    let generated = if code_lines.iter().any(|(_, line)| line.starts_with("$ ")) {
+                        let generated = outcomes
+                            .get(testcase_index)
+                            .with_context(|| format!("no outcome for testcase number {}", testcase_index + 1))?
+                            .generate_testcase()
+                            .with_context(|| format!("testcase number {}", testcase_index + 1))?;
+                        testcase_index += 1;
+                        generated
+                    } else {
+                        code_lines
+                            .iter()
+                            .map(|(_, line)| line.assure_newline().to_string())
+                            .collect::<String>()
+                    };
                     let backticks = "`".repeat(max_backtick_size(&generated) + 1);
                     updated.push_str(&formatln!("{}{}{}", &backticks, &language, &config));
                     for (_, line) in &comment_lines {
@@ -95,7 +108,6 @@ impl UpdateGenerator for MarkdownUpdateGenerator {
                     }
                     updated.push_str(&generated);
                     updated.push_str(&backticks.assure_newline());
-                    testcase_index += 1;
                 }
             }
         }
